@@ -74,6 +74,9 @@ func init() {
 	registerDomain("proj", []string{"T", "T", idxSort}, idxSort,
 		`(assert (forall ((t T) (o T) (J (Array Int Int)) (k Int)) (! (=> (and (<= 0 k) (< k (rank t))) (= (select (proj t o J) k) (ite (= (dim t k) (dim o (+ k (- (rank o) (rank t))))) (select J (+ k (- (rank o) (rank t)))) 0))) :pattern ((select (proj t o J) k)))))
 (assert (forall ((t T) (o T) (J (Array Int Int))) (! (=> (and (= (rank t) (rank o)) (forall ((k Int)) (=> (and (<= 0 k) (< k (rank t))) (= (dim t k) (dim o k))))) (= (el t (proj t o J)) (el t J))) :pattern ((proj t o J)))))`, "rank", "dim", "el")
+	// projA(t, S, m, J): proj against a target shape given as an array S of rank m (no result tensor yet)
+	registerDomain("projA", []string{"T", idxSort, "Int", idxSort}, idxSort,
+		`(assert (forall ((t T) (S (Array Int Int)) (m Int) (J (Array Int Int)) (k Int)) (! (=> (and (<= 0 k) (< k (rank t))) (= (select (projA t S m J) k) (ite (= (dim t k) (select S (+ k (- m (rank t))))) (select J (+ k (- m (rank t)))) 0))) :pattern ((select (projA t S m J) k)))))`, "rank", "dim")
 	// offs(J, F): J'[k] = J[k] + F[k]
 	registerDomain("offs", []string{idxSort, idxSort}, idxSort,
 		`(assert (forall ((J (Array Int Int)) (F (Array Int Int)) (k Int)) (! (= (select (offs J F) k) (+ (select J k) (select F k))) :pattern ((select (offs J F) k)))))`)
